@@ -147,6 +147,8 @@ fn execute_iterations<'i>(
             trace_ctx,
         );
         throw_error_if_not_catchable(result)?;
+        // a catchable error of an iteration stops bubbling here, so a later failure has to be able to set :error: again
+        exec_ctx.error_descriptor.enable_error_setting();
         trace_to_exec_err!(trace_ctx.meet_generation_end(ingredients.fold_id), fold_to_string)?;
 
         generation_observer.observe_completeness(exec_ctx.is_subgraph_complete());
